@@ -340,6 +340,9 @@ func (c *tableCtx) route(t *rapid.T, id string, siblings []model.RouteSpec) mode
 	if chance(t, "pathform", 25) {
 		r.PathForm = rapid.IntRange(1, 3).Draw(t, "pathformkind")
 	}
+	if chance(t, "style", 30) {
+		r.Style = rapid.IntRange(1, 31).Draw(t, "stylebits")
+	}
 	if cfg.Conds && chance(t, "hascond", 15) {
 		n := rapid.IntRange(1, 2).Draw(t, "nconds")
 		for i := 0; i < n; i++ {
@@ -446,6 +449,7 @@ func Table(t *rapid.T, cfg Cfg) model.TableSpec {
 				s.RootForm = 1
 			}
 		}
+		s.Docs = chance(t, "svcdocs", 15)
 		if cfg.Media && chance(t, "svcmedia", 20) {
 			s.Consumes = c.mediaList(t, "svcconsumes")
 			s.Produces = c.mediaList(t, "svcproduces")
